@@ -4,7 +4,7 @@ set -e
 cd "$(dirname "$0")"
 export CARGO_NET_OFFLINE=true
 python3 tools/extract_constants.py
-for t in tools/extract_*.py; do [ "$t" = tools/extract_constants.py ] || python3 "$t" || true; done
+for t in tools/extract_*.py tools/spec_*_to_rust.py; do [ "$t" = tools/extract_constants.py ] || python3 "$t" || true; done
 (cd lean && lake build)
 (cd harness && cargo build --release --offline)
 mkdir -p replays evidence harness/out
